@@ -236,12 +236,12 @@ def check(run):
 
     # ---------------- stream A
     cases = rstage.load_corpus("C15") + container_cases()
-    cases += rstage.gen_cases(run.seed + 1501, 250 if quick else 4000, 1, depth=3)
-    cases += rstage.gen_forced(run.seed + 1502, 50 if quick else 800, 1)
+    cases += rstage.gen_cases(run.seed + 1501, 250 if quick else 12000, 1, depth=3)
+    cases += rstage.gen_forced(run.seed + 1502, 50 if quick else 2400, 1)
     from checks.c13 import map_rt
     f = add_docs(rnd)
     extra = []
-    for c in cases[: (150 if quick else 2000)]:
+    for c in cases[: (150 if quick else 6000)]:
         extra.append({"env": [(k, map_rt(f, v)) for k, v in c["env"]], "rt": map_rt(f, c["rt"]), "source": "docs"})
     cases += extra
     jobs, exprs = [], []
@@ -286,7 +286,7 @@ def check(run):
 
     # ---------------- stream B
     g = tsgen.TsGen(run.seed + 1503)
-    n = 120 if quick else 2000
+    n = 120 if quick else 6000
     sources = []
     for i in range(n):
         if i % 2 == 0:
